@@ -533,6 +533,18 @@ func parseTrailer(t *protocol.Trailer, buf []byte) (int, error) {
 		// otherwise the '0' is the first byte of a trailer field name ("0-Trace: ...")
 	}
 
+	// Values are only stored once the whole trailer section is buffered: a value stored from a partial
+	// section (a folded line cut after its first physical line, the first of two fields with the same
+	// name) would not be replaced when the caller retries with more data.
+	var pre HeaderScanner
+	pre.B = buf
+	pre.DisableNormalizing = true
+	for pre.Next() {
+	}
+	if pre.Err != nil {
+		return 0, pre.Err
+	}
+
 	var s HeaderScanner
 	s.B = buf
 	s.DisableNormalizing = t.IsDisableNormalizing()
